@@ -39,16 +39,25 @@ def continuous(conf, seed):
     else:
         bmin = 3.0 * scale
         bmaj = 2.0 * bmin
-        bpa = {"2to1pa0": 0.0, "2to1pa45": 45.0, "2to1pa120": -60.0}[conf["beam"]]
-    kind = rng.choice(["point", "extended", "extended"])
+        # the header may give the same position angle in any equivalent form, and beams a few degrees
+        # either side of the class value
+        bpa = {"2to1pa0": 0.0, "2to1pa45": 45.0, "2to1pa120": 120.0}[conf["beam"]]
+        bpa += rng.choice([0.0, 0.0, 180.0, -180.0]) + rng.choice([0.0, 0.0, 5.0, -5.0])
+    kind = rng.choice(["point", "extended", "extended"] + (["crossed"] if conf["beam"] != "circ" else []))
     if kind == "point":
         a, b, pa = bmaj, bmin, bpa
+    elif kind == "crossed":
+        # elongated across the beam: the fitted minor axis has to grow well beyond the beam
+        kind = "extended"
+        b = bmaj * rng.uniform(1.0, 1.2)
+        a = b * rng.uniform(2.5, 4.0)
+        pa = ((bpa + 90.0 + rng.uniform(-10, 10) + 90.0) % 180.0) - 90.0
     else:
         b = bmaj * rng.uniform(1.0, 1.5)
-        a = b * rng.choice([1.0, rng.uniform(1.05, 2.0), rng.uniform(1.05, 2.0)])
+        a = b * rng.choice([1.0, rng.uniform(1.05, 2.0), rng.uniform(1.05, 2.0), rng.uniform(2.0, 4.0)])
         pa = rng.uniform(-89.9, 90.0)
     internal = conf["bkgrms"] == "internal"
-    size = 300 if internal else 96
+    size = 300 if internal else (160 if a / scale > 30 else 96)
     phase = rng.choice([(0.0, 0.0), (0.5, 0.5), (0.5, 0.0), (rng.random(), rng.random()), (rng.random(), rng.random())])
     x0 = size // 2 + rng.randint(-12, 12) + phase[0]
     y0 = size // 2 + rng.randint(-12, 12) + phase[1]
@@ -201,7 +210,10 @@ def selftest(ctx):
 def key_of(rec, fails):
     c = rec["conf"]
     cls = ("noise(%s,docov=%s,%s)" % (rec.get("noise_kind"), c["docov"], c["bkgrms"])) if c["noise"] else "noise-free"
-    return "%s %s subpixel=%s fails=%s" % (cls, rec.get("kind", ""), rec.get("phase"), ",".join(fails))
+    kind = rec.get("kind", "")
+    if kind == "extended" and rec.get("ratio_1e3", 0) >= 2200:
+        kind = "extended(axis-ratio>=2.2)"
+    return "%s %s subpixel=%s fails=%s" % (cls, kind, rec.get("phase"), ",".join(fails))
 
 
 def run(ctx):
